@@ -38,6 +38,9 @@ GENERATORS = [
     ('gen_py_textfn', 'PyTextFn.lean'),
     ('gen_py_smallfn', 'PySmallFn.lean'),
     ('gen_py_attrsel', 'PyAttrSel.lean'),
+    ('gen_py_langwalk', 'PyLangWalk.lean'),
+    ('gen_py_nth', 'PyNth.lean'),
+    ('gen_py_combinators', 'PyCombinators.lean'),
 ]
 
 
